@@ -13,6 +13,8 @@ are stored but never read back.
 import Proofs.TracksV2Main
 import Proofs.TracksV2Idem
 import Proofs.TracksV2Db
+import Proofs.TracksV2Wf
+import Proofs.TracksV2Bridge
 
 namespace EngineModel.Properties.C01V2
 open EngineModel EngineModel.TracksV2 EngineModel.Prim
@@ -250,7 +252,8 @@ theorem v2_C01_representable (s : Schema) (x y : Snap) (h : Spec.normalize s x =
                 rcases hw with hw | ⟨hlen, hop, n, r, t, hn, hr, ht, hsz⟩
                 · simp [Spec.normWaveform, hw] at hnw; rw [hw]; exact hnw
                 · have hne : x.waveform ≠ [] := by intro hh; rw [hh] at hlen; simp at hlen
-                  simp only [Spec.normWaveform, hne, if_false, hn, hr, ht, hsz, Option.some.injEq] at hnw
+                  simp only [Spec.normWaveform, hne, if_false, hn, hr, ht, hsz, (by decide : ¬ (1024 : Nat) = 0),
+                    Option.some.injEq] at hnw
                   rw [← hnw]
                   exact overview_of_overview _ hlen hop
 
@@ -328,6 +331,193 @@ theorem v2_C01_db_reject (ops : FOps) (s : Schema) (db : Db) (id : Nat) (x : Sna
     (∃ e, db.create ops s x = (db, .throw e)) ∧ (∃ e, db.update ops s id x = (db, .throw e)) := by
   obtain ⟨e, he⟩ := v2_C01_reject ops s x h
   exact ⟨⟨e, by simp [Db.create, he]⟩, ⟨e, by simp [Db.update, he]⟩⟩
+
+
+/-! ### total statements on the statement-level Track table
+
+`TDb` (EngineModel/TracksV2/Table.lean) has the `UNIQUE (path)` constraint, the
+origin trigger and the statements `create_track` / `update` really issue; `Inv`
+holds in every reachable state (C11V2Tracks).  Nothing is excluded: the
+colliding path, the absent track and the rejected snapshot all have their
+outcome stated. -/
+
+theorem written_row (ops : FOps) (s : Schema) (x y : Snap) (h : Spec.normalize s x = some y) :
+    ∃ r p, writeStore ops s x = .ok r ∧ readSnap ops r = .ok y ∧ x.relativePath = some p ∧ r.path = p := by
+  have h1 := v2_C01_roundtrip ops s x y h
+  cases hw : writeStore ops s x with
+  | ok r =>
+    rw [hw] at h1
+    exact ⟨r, r.path, rfl, h1, path_of_written ops s x y r h hw, rfl⟩
+  | throw e => rw [hw] at h1; cases h1
+  | ub u => rw [hw] at h1; cases h1
+
+/-- **`create_track`, every case.**  A snapshot the Spec rejects: exception, table
+unchanged.  An acceptable snapshot whose path another track has: refused
+(`sqlite_error`), table unchanged.  Otherwise: a new row with the next id whose
+`snapshot()` is the normalised input; every other row untouched. -/
+theorem v2_C01_table_create (ops : FOps) (s : Schema) (db : TDb) (hI : Inv db) (x : Snap) :
+    match Spec.normalize s x with
+    | none => ∃ e, callCreate ops s x db = (db, .throw e)
+    | some y => ∃ r p, writeStore ops s x = .ok r ∧ x.relativePath = some p ∧ readSnap ops r = .ok y ∧
+        callCreate ops s x db =
+          if pathTaken' db 0 p then (db, .throw .sqlite_error)
+          else ({ db with rows := db.rows ++ [db.created r], seq := db.seq + 1 }, .ok (db.seq + 1)) := by
+  cases hn : Spec.normalize s x with
+  | none =>
+    obtain ⟨e, he⟩ := v2_C01_reject ops s x hn
+    exact ⟨e, by unfold callCreate; rw [M.lift_bind, he]⟩
+  | some y =>
+    obtain ⟨r, p, hw, hr, hp, hrp⟩ := written_row ops s x y hn
+    refine ⟨r, p, hw, hp, hr, ?_⟩
+    unfold callCreate
+    rw [M.lift_bind, hw]
+    simp only []
+    unfold M.stmt
+    simp only [insertStmt_eq hI.s, hrp]
+    cases pathTaken' db 0 p <;> rfl
+
+/-- **`track::update`, every case**, whatever was stored for the track before.
+Rejected snapshot: exception, table unchanged.  The track does not exist (its
+handle outlived `remove_track`): the call returns normally and nothing is
+written (`track_table::update` does not look at `rows_modified()`).  The path is
+another track's: refused, table unchanged.  Otherwise the row's `snapshot()` is
+the normalised input, key and origin columns as before, every other row
+untouched. -/
+theorem v2_C01_table_update (ops : FOps) (s : Schema) (db : TDb) (hI : Inv db) (id : Nat) (x : Snap) :
+    match Spec.normalize s x with
+    | none => ∃ e, callUpdate ops s id x db = (db, .throw e)
+    | some y =>
+      match db.find id with
+      | none => callUpdate ops s id x db = (db, .ok ())
+      | some t => ∃ r p, writeStore ops s x = .ok r ∧ x.relativePath = some p ∧ readSnap ops r = .ok y ∧
+          callUpdate ops s id x db =
+            if pathTaken' db id p then (db, .throw .sqlite_error) else (db.rep t r, .ok ()) := by
+  cases hn : Spec.normalize s x with
+  | none =>
+    obtain ⟨e, he⟩ := v2_C01_reject ops s x hn
+    exact ⟨e, by unfold callUpdate; rw [M.lift_bind, he]⟩
+  | some y =>
+    obtain ⟨r, p, hw, hr, hp, hrp⟩ := written_row ops s x y hn
+    cases hf : db.find id with
+    | none =>
+      simp only []
+      unfold callUpdate
+      rw [M.lift_bind, hw]
+      simp only []
+      rw [M.bind_apply]
+      unfold M.stmt
+      simp only [updateStmt_none hf]
+      rfl
+    | some t =>
+      refine ⟨r, p, hw, hp, hr, ?_⟩
+      unfold callUpdate
+      rw [M.lift_bind, hw]
+      simp only []
+      rw [M.bind_apply]
+      unfold M.stmt
+      simp only [updateStmt_whole hI.s hf, hrp]
+      cases pathTaken' db id p <;> rfl
+
+/-- **The fixed point on the same track.**  After `update(x)` of an existing
+track succeeded, its `snapshot()` is `y = normalize x`; writing `y` to the same
+track again succeeds (its own path is not a collision) and `snapshot()` is `y`
+once more. -/
+theorem v2_C01_table_second_write (ops : FOps) (s : Schema) (db : TDb) (hI : Inv db) (id : Nat) (t : TRow)
+    (hf : db.find id = some t) (x y : Snap) (hn : Spec.normalize s x = some y)
+    (hok : (callUpdate ops s id x db).2 = .ok ()) :
+    let db1 := (callUpdate ops s id x db).1
+    (∃ t1, db1.find id = some t1 ∧ readSnap ops t1.row = .ok y) ∧
+    (callUpdate ops s id y db1).2 = .ok () ∧
+    ∃ t2, (callUpdate ops s id y db1).1.find id = some t2 ∧ readSnap ops t2.row = .ok y := by
+  intro db1
+  obtain ⟨ht, hid⟩ := find_mem hf
+  have h1 := v2_C01_table_update ops s db hI id x
+  rw [hn] at h1
+  simp only [hf] at h1
+  obtain ⟨r, p, hw, hp, hr, hcall⟩ := h1
+  cases hc : pathTaken' db id p with
+  | true => rw [hcall, hc] at hok; cases hok
+  | false =>
+    have e1 : db1 = db.rep t r := by show (callUpdate ops s id x db).1 = _; rw [hcall, hc]; rfl
+    have hrp : r.path = p := by
+      have h3 := path_of_written ops s x y r hn hw
+      rw [hp] at h3; exact (Option.some.inj h3).symm
+    have hI1 : Inv db1 := by
+      rw [e1]
+      exact ⟨SInv_rep hI.s ht r (by rw [hid, hrp]; exact hc), DInv_rep hI.d t r (writeStore_derived ops s x r hw)⟩
+    have hf1 : db1.find id = some { t with row := r } := by rw [e1, find_rep, hf]; simp [hid]
+    have hfix := v2_C01_fixed_point s x y hn
+    have h2 := v2_C01_table_update ops s db1 hI1 id y
+    rw [hfix] at h2
+    simp only [hf1] at h2
+    obtain ⟨r2, p2, _, hp2, hr2, hcall2⟩ := h2
+    have hp2' : p2 = p := by
+      have h3 := (v2_C01_representable s x y hn).2.2.2.2.2.2.2.2.2.2.1
+      rw [h3, hp] at hp2
+      exact (Option.some.inj hp2).symm
+    have hc2 : pathTaken' db1 id p2 = false := by
+      have hm : ({ t with row := r } : TRow) ∈ db1.rows := (find_mem hf1).1
+      have := pathTaken_same hI1.s hm
+      rw [hp2', ← hrp]
+      simpa [hid] using this
+    refine ⟨⟨_, hf1, hr⟩, by rw [hcall2, hc2]; rfl, ?_⟩
+    rw [hcall2, hc2]
+    refine ⟨{ ({ t with row := r } : TRow) with row := r2 }, ?_, hr2⟩
+    show (db1.rep { t with row := r } r2).find id = _
+    rw [find_rep, hf1]; simp [hid]
+
+
+/-! ### every supported schema version: the per-version column lists
+
+`tablePut s` is the row store the theorems above use for `track_table`.  Here it
+is tied, for each of the seven 2.x versions, to C18's model of `track_table`
+(`EngineModel/Table/Track.lean`) instantiated with the INSERT / UPDATE / SELECT
+column lists that are **regenerated from `track_table.cpp` on every run**
+(`Gen/Bindings.lean`; three distinct lists: 2.18.0, 2.20.1–2.20.2, 2.20.3+):
+`toTable` presents a `Row` (plus id, origin pair, `date_added`,
+`last_edit_time`) as the typed `track_row` of that model. -/
+
+/-- **`create_track` on each version.**  With the statements of version `s`: if
+`track_table::add` of the row `snapshot_to_row` built (id 0, origin (uuid, 0))
+returns id `i`, then `tablePut s r` is defined and `track_table::get(i)` is that
+row with id `i`, origin (uuid, `i`) (trigger), `date_added` at whole seconds,
+and `last_edit_time` as written (2.20.3+) or the epoch (before). -/
+theorem v2_C01_schema_create (s : Schema) :
+    ∃ st, Table.genStmts s.to2 = some st ∧
+    ∀ (d d' : Table.TDb) (u : Bytes) (r : Row) (da le i : Int),
+      d.Wf → d.uuid = .text u → Table.in64 da = true → Table.in64 le = true →
+      Table.tAdd st d (toTable 0 u 0 da le r) = (d', .ok i) →
+      ∃ r', tablePut s r = .ok r' ∧
+        Table.tGet st d' i = .ok (some (toTable i u i (Table.truncSec da * 1000000000)
+          (if s.to2.ge .s2_20_3 then Table.truncSec le * 1000000000 else 0) r')) :=
+  tablePut_is_get_add s
+
+/-- **`track::update` on each version**: `get ∘ update` of the row built for an
+existing track is `tablePut s r` with the origin pair repaired and
+`last_edit_time` stamped by the database from 2.20.3 on; every other row is
+untouched. -/
+theorem v2_C01_schema_update (s : Schema) :
+    ∃ st, Table.genStmts s.to2 = some st ∧
+    ∀ (d d' : Table.TDb) (u : Bytes) (r : Row) (da le i : Int) (old : Table.Raw Table.TCol),
+      d.uuid = .text u → Table.in64 i = true → Table.in64 da = true → Table.in64 le = true →
+      Table.findRow .id d.rows i = some old → Table.in64 (d.clock * 1000000000) = true →
+      Table.tUpdate s.to2 st d (toTable i u 0 da le r) = (d', .ok ()) →
+      ∃ r', tablePut s r = .ok r' ∧
+        Table.tGet st d' i = .ok (some (toTable i u i (Table.truncSec da * 1000000000)
+          (if s.to2.ge .s2_20_3 then d.clock * 1000000000 else 0) r')) ∧
+        ∀ j, j ≠ i → Table.findRow .id d'.rows j = Table.findRow .id d.rows j :=
+  tablePut_is_get_update s
+
+/-- The versions are not interchangeable: the row a 2.18.0 library reads back
+differs from the one a 2.20.1 library reads back (`active_on_load_loops`), and
+that from a 2.20.3 one (`last_edit_time`). -/
+theorem v2_C01_schema_matters :
+    tablePut .s2_18_0 (default : Row) ≠ tablePut .s2_20_1 { (default : Row) with activeOnLoadLoops := some 0 } ∧
+    tablePut .s2_18_0 { (default : Row) with activeOnLoadLoops := some 0 } ≠
+      tablePut .s2_20_1 { (default : Row) with activeOnLoadLoops := some 0 } ∧
+    Table.TField.present Schema.s2_20_2.to2 .last_edit_time = false ∧
+    Table.TField.present Schema.s2_20_3.to2 .last_edit_time = true := by
+  refine ⟨by decide, by decide, rfl, rfl⟩
 
 /-! ### non-vacuity -/
 
